@@ -45,7 +45,11 @@ func (h *H) replay(op []string) (string, bool) {
 		if !ok || e1 != nil || e2 != nil {
 			return "", false
 		}
-		return b01(k.Matches(rune(b), vaxis.ModifierMask(m))), true
+		got, same := matchesVariadic(k, rune(b), m)
+		if !same {
+			return "variadic-call-differs", true
+		}
+		return b01(got), true
 	case "self":
 		if len(op) != 4 {
 			return "", false
